@@ -175,7 +175,8 @@ def check_case(case):
     bootstrap()
     X = np.array(case["X"], float)
     solver = case["solver"]["name"]
-    sig = dict(solver=solver, datafit=(case["datafit"] or {}).get("name", "None"), penalty=case["penalty"]["name"], storage=case["storage"])
+    sig = dict(solver=solver, datafit=(case["datafit"] or {}).get("name", "None"), penalty=case["penalty"]["name"], storage=case["storage"],
+               unsorted_groups=P.unsorted_groups(case))
     classes = [solver] + case["flags"]
     if case["datafit"] and case["datafit"]["name"] == "QuadraticSVC":
         Xeff = (np.array(case["y"])[:, None] * X).T
